@@ -285,3 +285,10 @@ def member(eng, st, x, lst):
     k = eng.fresh_term('mk', z3.IntSort())
     xt = eng.term(x, lt.ty.args[0], st)
     return V(z3.Exists([k], z3.And(0 <= k, k < z3.Length(lt.t), lt.t[k] == xt)), BOOL)
+
+
+@GH.ghost('store')
+def store(eng, st):
+    """the block store singleton (DefaultBlockStore.instance) of this activation"""
+    import skepticoin.blockstore as bs
+    return eng.singleton_refs[id(bs.DefaultBlockStore.instance)]
